@@ -101,7 +101,7 @@ def inserts():
     return _cached('pins', _scan)
 
 
-def _cached(kind, fn):
+def _cached(kind, fn, procs=False):
     ents = build.asm_entries()
     cdir = build.CACHE_ROOT.rstrip('/') + '-insn'
     use = build.use_cache()
@@ -120,8 +120,13 @@ def _cached(kind, fn):
         todo.append((e, rel, p))
     if todo:
         objs = build.assemble([e for e, _, _ in todo], tag='insn_' + kind)
-        with ThreadPoolExecutor(build.NPROC) as ex:
-            outs = list(ex.map(lambda t: fn(objs[t[0]['file']]), todo))
+        if procs and len(todo) > 4:
+            import multiprocessing
+            with multiprocessing.Pool(build.NPROC) as pool:
+                outs = pool.map(fn, [objs[t[0]['file']] for t in todo], chunksize=4)
+        else:
+            with ThreadPoolExecutor(build.NPROC) as ex:
+                outs = list(ex.map(lambda t: fn(objs[t[0]['file']]), todo))
         for (e, rel, p), t in zip(todo, outs):
             res[rel] = t
             if use:
@@ -134,3 +139,280 @@ def _cached(kind, fn):
             except OSError:
                 pass
     return res
+
+
+# ---------------------------------------------------------------------------------------------------------------------------------------
+# one unchanged vector register stored twice
+
+_VST = re.compile(r'^v?mov(dqu|dqa|ups|aps|upd|apd|dqu8|dqu16|dqu32|dqu64|dqa32|dqa64|ntdq|ntps)$')
+_VREG = re.compile(r'^([xyz])mm(\d+)$')
+
+
+def _store_part(ins):
+    """(vector register number, first byte, end byte) of the register bytes an instruction writes to memory, or None"""
+    from .asmint import split_ops
+    mn = ins['mn']
+    ops = split_ops(ins['ops'])
+    if len(ops) < 2 or '[' not in ops[0]:
+        return None
+    if '{' in ops[0]:
+        return None             # masked store: which bytes is a run-time matter
+    m = _VREG.match(ops[1].strip())
+    if not m:
+        return None
+    n = int(m.group(2))
+    if _VST.match(mn) and len(ops) == 2:
+        return n, 0, {'x': 16, 'y': 32, 'z': 64}[m.group(1)]
+    if mn in ('movq', 'vmovq', 'movlps', 'vmovlps', 'movlpd', 'vmovlpd') and len(ops) == 2:
+        return n, 0, 8
+    if mn in ('movd', 'vmovd', 'movss', 'vmovss') and len(ops) == 2:
+        return n, 0, 4
+    if mn in ('movhps', 'vmovhps', 'movhpd', 'vmovhpd') and len(ops) == 2:
+        return n, 8, 16
+    mm = re.match(r'^v?pextr([bwdq])$', mn)
+    if mm and len(ops) == 3:
+        w = {'b': 1, 'w': 2, 'd': 4, 'q': 8}[mm.group(1)]
+        try:
+            k = int(ops[2], 16)
+        except ValueError:
+            return None
+        return n, k * w, k * w + w
+    return None
+
+
+def _def_class(ins):
+    """how a vector register got its value: 'zero', 'const' (read-only table), 'load', 'compute'"""
+    from .asmint import split_ops
+    mn = ins['mn']
+    ops = split_ops(ins['ops'])
+    if re.match(r'^v?(pxor[dq]?|xorps|xorpd|psub[bwdq]|pandn)$', mn) and len(ops) >= 2 and len({o.strip() for o in ops[-2:]}) == 1 and '[' not in ops[-1]:
+        return 'zero'
+    if mn in ('vzeroall', 'vzeroupper'):
+        return 'zero'
+    if re.match(r'^v?pcmpeq[bwdq]$', mn) and len({o.strip() for o in ops[-2:]}) == 1:
+        return 'const'
+    if any('[' in o for o in ops[1:]) and re.match(r'^v?(mov|lddqu|pbroadcast|broadcast|pmov[sz]x|movddup)', mn):
+        return 'const' if ('reloc' in ins or 'rip' in ins['ops']) else 'load'
+    return 'compute'
+
+
+def _mem_of(ins):
+    from .asmint import split_ops, parse_mem
+    try:
+        m = parse_mem(split_ops(ins['ops'])[0])
+    except Exception:
+        return None
+    if not m:
+        return None
+    return m
+
+
+def _gpr_step(ins):
+    """(register, constant) when the instruction adds a constant to a 64-bit register (add/sub/lea r,[r+c]/inc/dec), else None"""
+    from .asmint import split_ops
+    mn = ins['mn']
+    ops = [o.strip() for o in split_ops(ins['ops'])]
+    try:
+        if mn in ('add', 'sub') and len(ops) == 2 and re.match(r'^r\w+$', ops[0]) and re.match(r'^(0x)?[0-9a-f]+$', ops[1]):
+            c = int(ops[1], 16)
+            if c >= 1 << 63:
+                c -= 1 << 64
+            return ops[0], c if mn == 'add' else -c
+        if mn == 'lea' and len(ops) == 2:
+            m = re.match(r'^\[(r\w+)([+-])(0x[0-9a-f]+)\]$', ops[1])
+            if m and m.group(1) == ops[0]:
+                c = int(m.group(3), 16)
+                return ops[0], c if m.group(2) == '+' else -c
+        if mn in ('inc', 'dec') and len(ops) == 1 and re.match(r'^r\w+$', ops[0]):
+            return ops[0], 1 if mn == 'inc' else -1
+    except ValueError:
+        return None
+    return None
+
+
+def _gpr_const(ins):
+    """(register, value) when the instruction loads a constant into a 64-bit register (xor r,r / mov r,imm), else None"""
+    from .asmint import split_ops, SUB, WID
+    mn = ins['mn']
+    ops = [o.strip() for o in split_ops(ins['ops'])]
+    if len(ops) != 2:
+        return None
+    r64 = SUB.get(ops[0])
+    if r64 is None or WID.get(ops[0]) not in (4, 8):
+        return None
+    if mn in ('xor', 'sub') and ops[0] == ops[1]:
+        return r64, 0
+    if mn == 'mov' and re.match(r'^0x[0-9a-f]+$', ops[1]):
+        return r64, int(ops[1], 16)
+    return None
+
+
+def _addr(ins, g):
+    """(base, index, scale, displacement) of a store's address, an index register whose constant value is known folded in; base None when
+    the address is not base-relative"""
+    m = _mem_of(ins)
+    if not m or m.get('base') in (None, 'rip') or m.get('disp') is None:
+        return (None, None, 1, 0)
+    base, idx, sc, disp = m['base'], m.get('index'), m.get('scale') or 1, m['disp']
+    if idx is not None and idx in g:
+        disp += g[idx] * sc
+        idx, sc = None, 1
+    return (base, idx, sc, disp)
+
+
+def _scan_dupstores(obj):
+    from . import asmint, asmdu
+    insns, labels, funcs, syms = asmint.parse_obj(obj)
+    out = []
+    seen_pairs = set()
+    for name, entry in sorted(funcs.items()):
+        nodes = asmint.reachable_insns(entry, insns)
+        if len(nodes) > 60000:
+            continue
+        succ = {a: asmdu.successors(a, insns) for a in nodes}
+        du = {}
+        for a in nodes:
+            try:
+                du[a] = asmdu.defuse(insns[a])[0]
+            except Exception:
+                du[a] = set('v%d' % i for i in range(32)) | set(asmdu.GPRS)
+        # state: {vreg number: (frozenset(def sites), frozenset((site, lo, hi, base, index, scale, disp)))}; disp is kept relative to the
+        # CURRENT value of the base register (constant steps of the base are folded in, any other redefinition forgets the address)
+        state = {entry: {}}
+        work = [entry]
+        while work:
+            a = work.pop()
+            cur = state[a]
+            ins = insns[a]
+            new = cur
+            sp = _store_part(ins)
+            if ins['mn'] == 'call':
+                new = {}
+            elif sp is not None:
+                n, lo, hi = sp
+                d, st = cur.get(n, (frozenset(), frozenset()))
+                ad = _addr(ins, cur.get('g') or {})
+                new = dict(cur)
+                new[n] = (d, st | {(a, lo, hi) + ad})
+            else:
+                ds = [int(r[1:]) for r in du[a] if r.startswith('v') and r[1:].isdigit()]
+                gs = [r for r in du[a] if r in asmdu.GPRS]
+                if ds or gs:
+                    new = dict(cur)
+                    for n in ds:
+                        new[n] = (frozenset([a]), frozenset())
+                    if gs:
+                        step = _gpr_step(ins)
+                        g = dict(cur.get('g') or {})
+                        cst = _gpr_const(ins)
+                        for r_ in gs:
+                            if cst and cst[0] == r_:
+                                g[r_] = cst[1]
+                            elif step and step[0] == r_ and r_ in g and len(gs) == 1:
+                                g[r_] = g[r_] + step[1]
+                            else:
+                                g.pop(r_, None)
+                        new['g'] = g
+                        for n, v_ in list(new.items()):
+                            if n == 'g':
+                                continue
+                            d, st = v_
+                            if not any(t[3] in gs or t[4] in gs for t in st):
+                                continue
+                            st2 = set()
+                            for t in st:
+                                if step and t[3] == step[0] and t[4] != step[0] and len(gs) == 1:
+                                    st2.add(t[:6] + (t[6] - step[1],))
+                                elif t[3] in gs or t[4] in gs:
+                                    st2.add(t[:3] + (None, None, 1, 0))
+                                else:
+                                    st2.add(t)
+                            new[n] = (d, frozenset(st2))
+            for s in succ[a]:
+                old = state.get(s)
+                if old is None:
+                    state[s] = new
+                    work.append(s)
+                    continue
+                merged = None
+                og = old.get('g') or {}
+                ng = new.get('g') or {}
+                keep = {k: v for k, v in og.items() if ng.get(k) == v}
+                if keep != og:
+                    merged = dict(old)
+                    merged['g'] = keep
+                for n, v_ in new.items():
+                    if n == 'g':
+                        continue
+                    d, st = v_
+                    od, ost = old.get(n, (frozenset(), frozenset()))
+                    if not (d <= od and st <= ost):
+                        if len(ost | st) > 64:
+                            continue
+                        if merged is None:
+                            merged = dict(old)
+                        merged[n] = (od | d, ost | st)
+                if merged is not None:
+                    state[s] = merged
+                    work.append(s)
+        for a in sorted(nodes):
+            sp = _store_part(insns[a])
+            if sp is None or a not in state:
+                continue
+            n, lo, hi = sp
+            d, st = state[a].get(n, (frozenset(), frozenset()))
+            here = _addr(insns[a], state[a].get('g') or {})
+            if here[0] is None:
+                continue
+            for t in sorted(st, key=lambda t: tuple(str(x) for x in t)):
+                b, lo2, hi2, base, idx, sc, disp = t
+                if b == a or not (lo < hi2 and lo2 < hi) or base is None:
+                    continue
+                if (base, idx, sc) != here[:3]:
+                    continue
+                delta = here[3] - disp
+                if (b, a) in seen_pairs:
+                    continue
+                seen_pairs.add((b, a))
+                cls = sorted({_def_class(insns[x]) for x in d}) or ['entry']
+                out.append({'fn': name, 'a': a, 'b': b, 'reg': n, 'first': insns[b]['txt'], 'second': insns[a]['txt'], 'defs': cls,
+                            'delta': delta, 'w1': hi2 - lo2, 'w2': hi - lo, 'def_txt': [insns[x]['txt'] for x in sorted(d)][:3]})
+    return out
+
+
+def dupstores():
+    """{asm source: [facts]}: pairs of stores of overlapping bytes of one vector register that no instruction redefined in between"""
+    return _cached('dup4', _scan_dupstores, procs=True)
+
+
+def dupstore_fixture():
+    """assemble data/fixtures/dupstore.asm with the tree's own assembler and scan it: -> facts"""
+    src = os.path.join(os.path.dirname(__file__), 'data', 'fixtures', 'dupstore.asm')
+    outdir = os.path.join(build.scratch(), 'obj_fixture')
+    os.makedirs(outdir, exist_ok=True)
+    out = os.path.join(outdir, 'dupstore.%d.o' % os.getpid())
+    nasm = build.asm_entries()[0]['args'][0]
+    r = subprocess.run([nasm, '-f', 'elf64', '-o', out, src], capture_output=True, text=True)
+    if r.returncode != 0:
+        raise build.AnalysisBroken('cannot assemble the W6 fixture: ' + r.stderr[-300:])
+    try:
+        return _scan_dupstores(out)
+    finally:
+        try:
+            os.remove(out)
+        except OSError:
+            pass
+
+
+if __name__ == '__main__':
+    import sys
+    import collections
+    r = dupstores()
+    c = collections.Counter()
+    for rel, fs in sorted(r.items()):
+        for f in fs:
+            near = 0 <= abs(f['delta']) <= 64
+            c[tuple(f['defs']) + (near,)] += 1
+            if (near and 'zero' not in f['defs'] and 'const' not in f['defs']) or '-v' in sys.argv:
+                print(rel, f['fn'], hex(f['b']), f['first'], '|', hex(f['a']), f['second'], '|', f['delta'], f['defs'], f['def_txt'])
+    print(c)
